@@ -4,6 +4,105 @@ import "covr/internal/e1"
 
 // Fx returns the directed effect / laziness cases (C02).
 func Fx() []*e1.Program {
+	return append(fxDirected(), fxAllocations()...)
+}
+
+// fxAllocations: yields of composite literals (pointers, slices, maps, defined slice / map types, struct values) as the
+// only statement of a thunk: every step must evaluate the literal again (a fresh object per step). The consumer
+// mutates what it received and checks identity between steps.
+func fxAllocations() []*e1.Program {
+	return []*e1.Program{
+		Raw("fx-composite-literal-yields-allocate-per-step", `
+type §msg struct{ Seq, Len int }
+type §row []int
+type §dict map[string]int
+
+func §msgs(n int) ITER[*§msg] GEN[*§msg]{
+	for i := 0; i < n; i++ {
+		YIELD(&§msg{Seq: 1})
+	}
+	RETNIL
+}GEN
+func §rows(n int) ITER[§row] GEN[§row]{
+	for i := 0; i < n; i++ {
+		YIELD(§row{0, 0})
+	}
+	if n > 5 {
+		YIELD(§row{9})
+	} else {
+		YIELD(§row{7, 7})
+	}
+	RETNIL
+}GEN
+func §slices(n int) ITER[[]int] GEN[[]int]{
+	for range n {
+		YIELD([]int{1, 2})
+	}
+	RETNIL
+}GEN
+func §dicts(n int) ITER[§dict] GEN[§dict]{
+	for i := 0; i < n; i++ {
+		YIELD(§dict{"k": 1})
+	}
+	RETNIL
+}GEN
+func §maps(n int) ITER[map[int]int] GEN[map[int]int]{
+	for i := 0; i < n; i++ {
+		YIELD(map[int]int{1: 1})
+	}
+	RETNIL
+}GEN
+func §structs(n int) ITER[§msg] GEN[§msg]{
+	for i := 0; i < n; i++ {
+		YIELD(§msg{2, 3})
+	}
+	RETNIL
+}GEN
+func §E() {
+	var prev *§msg
+	for it := §msgs(3); it.MoveNext(); {
+		m := it.Current()
+		tr.V(1, m == prev)
+		m.Seq += 5
+		tr.V(2, m.Seq)
+		prev = m
+	}
+	for it := §rows(3); it.MoveNext(); {
+		r := it.Current()
+		r[0]++
+		tr.V(3, r[0]*10+len(r))
+	}
+	var keep [][]int
+	for it := §slices(3); it.MoveNext(); {
+		s := it.Current()
+		s[1] += len(keep)
+		keep = append(keep, s)
+	}
+	for _, s := range keep {
+		tr.V(4, s[1])
+	}
+	for it := §dicts(3); it.MoveNext(); {
+		d := it.Current()
+		d["k"]++
+		tr.V(5, d["k"])
+	}
+	for it := §maps(2); it.MoveNext(); {
+		m := it.Current()
+		m[1] += 10
+		m[2] = 1
+		tr.V(6, m[1]+len(m))
+	}
+	for it := §structs(2); it.MoveNext(); {
+		v := it.Current()
+		v.Seq++
+		tr.V(7, v.Seq+v.Len)
+	}
+}
+`, "yield:composite-literal"),
+	}
+}
+
+func fxDirected() []*e1.Program {
 	return []*e1.Program{
 		G("fx-fibonacci", `
 a, b := 1, 1
